@@ -22,7 +22,7 @@ from . import fitsim, persosim
 
 PROPERTY = "C06"
 TIERS = {
-    "quick": {"runs": 240, "budget_s": 115, "chunk": 3},
+    "quick": {"runs": 360, "budget_s": 115, "chunk": 3},
     "thorough": {"runs": 8000, "budget_s": 900, "chunk": 6},
 }
 REQUIRED_PROBES = {
